@@ -30,22 +30,23 @@ def _job(job):
         if lists is not None:
             ctx.assume(lor_all([land_all([core.litof(qs[i] == l[i]) for i in range(m)]) for l in lists]))
         mq = [int(q) for q in qs]            # every feasible ordered list (realisation)
-        problems, st = _tomoprop.full_tomography(N, conn, mq, pr, with_density=(N <= 4))
+        variant = ["plain", "cregs", "metadata", "plain"][(sum((i + 1) * q for i, q in enumerate(mq)) + N) % 4]
+        problems, st = _tomoprop.full_tomography(N, conn, mq, pr, with_density=(N <= 4), variant=variant)
         stats["pairs"] += st.get("pairs", 0)
-        ctx.prove("full-state tomography on the ordered list %s of a %d-qubit register: %s" % (mq, N, problems[:1]), 0 if problems else 1, info=dict(mq=mq, which="tomography"))
+        ctx.prove("full-state tomography on the ordered list %s of a %d-qubit register (preparation circuit object: %s): %s" % (mq, N, variant, problems[:1]), 0 if problems else 1, info=dict(mq=mq, which="tomography", variant=variant))
         # stabilizer measurement on the same list
         cid = rnd.randrange(NCLASSES[m])
         adj = tables.rep_graph(m, cid)
         R = [[1 if i == j else 0 for j in range(m)] for i in range(m)]
         ph = [rnd.randrange(2) for _ in range(m)]
-        problems2, st2 = _tomoprop.stabilizer_measurement(N, conn, mq, R, adj, ph, pr, with_density=(N <= 4))
+        problems2, st2 = _tomoprop.stabilizer_measurement(N, conn, mq, R, adj, ph, pr, with_density=(N <= 4), variant=variant)
         stats["pairs"] += st2.get("pairs", 0)
-        ctx.prove("stabilizer measurement on the ordered list %s of a %d-qubit register: %s" % (mq, N, problems2[:1]), 0 if problems2 else 1, info=dict(mq=mq, which="stabilizer", R=R, S=adj, phases=ph))
+        ctx.prove("stabilizer measurement on the ordered list %s of a %d-qubit register: %s" % (mq, N, problems2[:1]), 0 if problems2 else 1, info=dict(mq=mq, which="stabilizer", R=R, S=adj, phases=ph, variant=variant))
         return {"mq": mq}
     res = explore(fn)
     for v in res.violations[:3]:
         i = v["info"]
-        cands.append(dict(kind="tomo", which=i["which"], N=N, conn=conn, mq=i["mq"], R=i.get("R"), S=i.get("S"), phases=i.get("phases"), label=v["label"]))
+        cands.append(dict(kind="tomo", which=i["which"], N=N, conn=conn, mq=i["mq"], R=i.get("R"), S=i.get("S"), phases=i.get("phases"), variant=i.get("variant", "plain"), label=v["label"]))
     res.violations = []
     res.leaves = res.leaves[:2]
     return dict(res=res.to_json(), cands=cands, q=dict(n=pr.n, t=pr.t, verdicts=pr.verdicts), pairs=stats["pairs"])
@@ -56,7 +57,8 @@ def run(tier, seed):
     ck.encode("tomography.CircuitResult (marginalisation)", "tomography.full_state_tomography_circuits", "tomography.stabilizer_measurement_circuit",
               "tomography.FullStateTomographyFitter", "tomography.StabilizerMeasurementFitter", "tomography._compute_expectation_value")
     ck.bounds += ["N-qubit state symbolic (4^N real unknowns), measured list = symbolic ordered m-subset (realised): every ordered list for m=2 (N<=4) and m=3 (N<=%d); seeded non-ascending / contiguous-out-of-order lists for m=3..4, N<=5%s" % (4 if tier == "quick" else 5, "" if tier == "quick" else " and m=5, N=6"),
-                  "both fitters, both modes (reduced / full-register), asked in both orders on the same fitter object; density matrices for N<=4"]
+                  "both fitters, both modes (reduced / full-register), asked in both orders on the same fitter object; density matrices for N<=4",
+                  "the preparation circuit OBJECT varies with the list: plain, owning a classical register (count keys '<meas> <creg>'), carrying metadata"]
     ck.outside += ["N>5 (4^N unknowns; the marginalisation code has no N-dependent branch - a reason, not a proof)", "registers with additional classical registers"]
     ck.validated += ztab.validate_against_qiskit(seed=seed, trials=100)
     rnd = random.Random(seed + 11)
